@@ -246,7 +246,7 @@ PROPS = {
     ),
     "C02": dict(
         coq="Properties/C02.v",
-        suites=[e2e_suite("plain,faults,reuse,mutate,crash,swap", ["deleted_without_validated_copy", "source_gone_receiver_lacks_it"]),
+        suites=[e2e_suite("plain,faults,reuse,mutate,crash,swap,pollnone", ["deleted_without_validated_copy", "source_gone_receiver_lacks_it", "released_without_positive_answer"], n=9),
                 dict(STAGE_SUITE, oracles=["positive_status_without_copy"], diffs=["status"])],
         rule=E2E_RULE + " | " + STAGE_RULE,
         level_text=("Proof (decision level) + trace oracles: the sender releases a file only on a positive poll answer, in the poll loop and at restart; the "
@@ -259,7 +259,7 @@ PROPS = {
     ),
     "C07": dict(
         coq="Properties/C07.v",
-        suites=[e2e_suite("crash", ["resent_bytes_receiver_reported_held", "not_delivered_after_sender_restart", "deleted_without_validated_copy", "source_gone_receiver_lacks_it"], n=24),
+        suites=[e2e_suite("crash,crashfail,crashgone", ["resent_bytes_receiver_reported_held", "not_delivered_after_sender_restart", "deleted_without_validated_copy", "source_gone_receiver_lacks_it", "released_without_positive_answer"], n=14),
                 dict(name="chunk", pkg="./client/", test="TestVerifChunk", min_lines=1000, oracles=["chunks_not_tiling_missing"], diffs=["left", "left-kind", "chunks"])],
         rule=E2E_RULE,
         level_text=("Proof (plan level) + crash enumeration: the restart plan re-sends ranges only for an unconfirmed, unchanged, partly received file and "
@@ -294,8 +294,9 @@ PROPS = {
     ),
     "C03": dict(
         coq="Properties/C03.v",
-        suites=[e2e_suite("plain,faults,eligible", ["not_delivered_within_bound", "pipeline_never_drains_after_vanished_file", "staging_area_not_empty_at_the_end"], n=14),
-                e2e_suite("mutate,vanish", ["not_delivered_within_bound", "not_confirmed_after_rewrite_in_flight", "pipeline_never_drains_after_vanished_file"], n=8)],
+        suites=[e2e_suite("plain,faults,eligible,pollnone", ["not_delivered_within_bound", "pipeline_never_drains_after_vanished_file", "staging_area_not_empty_at_the_end"], n=12),
+                e2e_suite("mutate,vanish", ["not_delivered_within_bound", "not_confirmed_after_rewrite_in_flight", "pipeline_never_drains_after_vanished_file"], n=8),
+                e2e_suite("crashfail,crash", ["not_delivered_after_sender_restart"], n=6)],
         rule=E2E_RULE,
         level_text=("Partial. Proof: through any failure sequence the send loop loses no part and drains completely once a request succeeds; negative or missing "
                     "poll answers always lead to another attempt. Exploration: fault scripts (all request-failure kinds, corruption, poll failures) followed by "
@@ -307,7 +308,7 @@ PROPS = {
     ),
     "C16": dict(
         coq="Properties/C16.v",
-        suites=[e2e_suite("stop", ["stop_now_did_not_terminate", "stop_now_not_prompt", "graceful_stop_did_not_terminate", "graceful_stop_left_work_undone"], n=24),
+        suites=[e2e_suite("stop", ["stop_now_did_not_terminate", "stop_now_not_prompt", "graceful_stop_did_not_terminate", "graceful_stop_left_work_undone", "confirmed_left_unrecorded_at_exit"], n=24),
                 e2e_suite("plain,faults,vanish", ["pipeline_never_drains_after_vanished_file"], n=8),
                 e2e_suite("stopfail", ["graceful_stop_did_not_terminate", "stop_now_did_not_terminate"], n=6)],
         rule=E2E_RULE,
